@@ -394,7 +394,19 @@ func runCase(rt *rapid.T, c *stats.Case, baseN int) {
 	ch.U = u
 	ch.Opt = gen.Opts{MaxTxs: 3, MaxEvents: 4, DenseEvents: true, FixedVersion: "0.13.2"}
 	busyPools(rt, c, u, ch)
-	m := &machine{t: rt, c: c, u: u, ch: ch, baseLen: baseN, n: node.New(newState, bdb.Copy(), u.Net), snapshotOnDisk: baseN > 0}
+	m := &machine{t: rt, c: c, u: u, ch: ch, baseLen: baseN, snapshotOnDisk: baseN > 0}
+	if baseN == 0 && rapid.IntRange(0, 3).Draw(rt, "pebble") == 0 {
+		// a quarter of the small-chain cases on the production store (Pebble v2); restarts re-open a Blockchain on it
+		pn, cleanup, err := node.NewPebble(newState, u.Net)
+		if err != nil {
+			stats.HarnessError("pebble: %v", err)
+		}
+		defer cleanup()
+		m.n = pn
+		c.Label("pebble")
+	} else {
+		m.n = node.New(newState, bdb.Copy(), u.Net)
+	}
 	c.Fp("base%d ns%v", baseN, newState)
 	avoidStale := stats.Known(kfStaleSnapshot)
 	actions := map[string]func(*rapid.T) bool{
